@@ -135,7 +135,9 @@ func describeTx(t *tx.Tx, direct *[]string) string {
 // a *bytes.Reader.
 func mkReader(b []byte) io.Reader {
 	h := sha256.Sum256(b)
-	switch h[0] % 4 {
+	switch h[0] % 5 {
+	case 4:
+		return bytes.NewBuffer(append([]byte{}, b...))
 	case 1:
 		return struct{ io.Reader }{bytes.NewReader(b)}
 	case 2:
@@ -672,6 +674,27 @@ func runC01(r *Runner) string {
 		if i%5 == 0 {
 			r.DoMode("blk.dec", []string{hx(r.mutate(enc))}, "block-malformed", false, "", DriftFull)
 		}
+	}
+	// blocks made of the smallest transactions the wire format allows (one input with an empty script, no
+	// output or one output with an empty script: 51 and 60 bytes), followed by nothing or by a few bytes, so
+	// that every kind of reader meets them
+	for i := 0; i < r.N(40, 400); i++ {
+		b := &blocks.Block{Header: r.genHeader()}
+		k := []int{1, 2, 3, 7, 50, 253}[i%6]
+		for j := 0; j < k; j++ {
+			po := &tx.PrevOut{Index: r.u32()}
+			copy(po.Hash[:], r.bytesN(32))
+			t := &tx.Tx{Version: int32(r.u32()), Locktime: r.u32(), Inputs: []*tx.Input{{PrevOut: po, Script: []byte{}, Sequence: r.u32()}}, Outputs: []*tx.Output{}}
+			if (i+j)%2 == 0 {
+				t.Outputs = append(t.Outputs, &tx.Output{Value: r.u64(), Script: r.bytesN((i / 6) % 2)})
+			}
+			b.Transactions = append(b.Transactions, t)
+		}
+		enc := b.Bytes()
+		if i%3 != 0 {
+			enc = append(enc, r.bytesN(1+r.rng.Intn(20))...)
+		}
+		r.Do("blk.dec", []string{hx(enc)}, "block-of-minimal-transactions", true, fmt.Sprintf("%d transactions, %d bytes", k, len(enc)))
 	}
 	return "cases are request lines; structured transactions/blocks are generated from the repository's own types with script and witness-item lengths drawn from the compact-size boundary classes, encoded by the library, followed by a random unread suffix; compact sizes < 2^17 and +-2 around every power of two are enumerated. A case is non-trivial when it has >= 1 input and exercises a boundary length class or a witness, or is a compact size >= 0xfb; distinct = distinct request line (SHA-256)."
 }
